@@ -12,10 +12,10 @@ import (
 
 // a flow script: a short prelude ending in a target request
 type c18script struct {
-	Name   string
-	Email  bool // needs TwoFactorEmailAuthRequired
-	Build  func(s *sim.Sim) []*sim.Action // last action is the target
-	Slow   bool                            // target pays cost-10 bcrypt x10: fewer error kinds
+	Name  string
+	Email bool                           // needs TwoFactorEmailAuthRequired
+	Build func(s *sim.Sim) []*sim.Action // last action is the target
+	Slow  bool                           // target pays cost-10 bcrypt x10: fewer error kinds
 }
 
 func withCls2(a *sim.Action, c string) *sim.Action { a.Cls2 = c; return a }
@@ -28,9 +28,13 @@ var c18Scripts = []c18script{
 	{Name: "login-unknown", Build: func(s *sim.Sim) []*sim.Action { return []*sim.Action{act("login", 0, -1, "wrong")} }},
 	{Name: "login-totp-parks", Build: func(s *sim.Sim) []*sim.Action { return []*sim.Action{act("login", 0, 1, "ok")} }},
 	{Name: "login-sms-parks", Build: func(s *sim.Sim) []*sim.Action { return []*sim.Action{act("login", 0, 2, "ok")} }},
-	{Name: "login-locked", Build: func(s *sim.Sim) []*sim.Action { return []*sim.Action{act("admin_lock", 0, 3, ""), act("login", 0, 3, "ok")} }},
+	{Name: "login-locked", Build: func(s *sim.Sim) []*sim.Action {
+		return []*sim.Action{act("admin_lock", 0, 3, ""), act("login", 0, 3, "ok")}
+	}},
 	{Name: "login-page", Build: func(s *sim.Sim) []*sim.Action { return []*sim.Action{act("get", 0, -9, "", "route", "/login")} }},
-	{Name: "otp-add", Build: func(s *sim.Sim) []*sim.Action { return []*sim.Action{act("login", 0, 0, "ok"), act("otp_add", 0, -9, "")} }},
+	{Name: "otp-add", Build: func(s *sim.Sim) []*sim.Action {
+		return []*sim.Action{act("login", 0, 0, "ok"), act("otp_add", 0, -9, "")}
+	}},
 	{Name: "otp-clear", Build: func(s *sim.Sim) []*sim.Action {
 		return []*sim.Action{act("login", 0, 0, "ok"), act("otp_add", 0, -9, ""), act("otp_clear", 0, -9, "")}
 	}},
@@ -38,7 +42,9 @@ var c18Scripts = []c18script{
 		return []*sim.Action{act("login", 0, 0, "ok"), act("otp_add", 0, -9, ""), act("logout", 0, -9, ""), act("otp_login", 1, 0, "ok")}
 	}},
 	{Name: "otp-login-wrong", Build: func(s *sim.Sim) []*sim.Action { return []*sim.Action{act("otp_login", 1, 0, "wrong")} }},
-	{Name: "logout", Build: func(s *sim.Sim) []*sim.Action { return []*sim.Action{act("login", 0, 0, "ok", "rm", "true"), act("logout", 0, -9, "")} }},
+	{Name: "logout", Build: func(s *sim.Sim) []*sim.Action {
+		return []*sim.Action{act("login", 0, 0, "ok", "rm", "true"), act("logout", 0, -9, "")}
+	}},
 	{Name: "register-new", Build: func(s *sim.Sim) []*sim.Action { return []*sim.Action{withCls2(act("register", 0, -1, ""), "fresh")} }},
 	{Name: "register-existing", Build: func(s *sim.Sim) []*sim.Action { return []*sim.Action{withCls2(act("register", 0, 0, ""), "fresh")} }},
 	{Name: "recover-start", Build: func(s *sim.Sim) []*sim.Action { return []*sim.Action{act("recover_start", 0, 0, "")} }},
@@ -49,9 +55,15 @@ var c18Scripts = []c18script{
 	{Name: "recover-end-bad-token", Build: func(s *sim.Sim) []*sim.Action {
 		return []*sim.Action{act("recover_start", 0, 0, ""), withCls2(act("recover_end", 0, 0, "bitflip"), "fresh")}
 	}},
-	{Name: "confirm", Build: func(s *sim.Sim) []*sim.Action { return []*sim.Action{act("admin_startconfirm", 0, 3, ""), act("confirm", 0, 3, "current")} }},
-	{Name: "confirm-bad-token", Build: func(s *sim.Sim) []*sim.Action { return []*sim.Action{act("admin_startconfirm", 0, 3, ""), act("confirm", 0, 3, "bitflip")} }},
-	{Name: "oauth2-start", Build: func(s *sim.Sim) []*sim.Action { return []*sim.Action{act("oauth_start", 0, -9, "", "provider", "alpha", "rm", "true")} }},
+	{Name: "confirm", Build: func(s *sim.Sim) []*sim.Action {
+		return []*sim.Action{act("admin_startconfirm", 0, 3, ""), act("confirm", 0, 3, "current")}
+	}},
+	{Name: "confirm-bad-token", Build: func(s *sim.Sim) []*sim.Action {
+		return []*sim.Action{act("admin_startconfirm", 0, 3, ""), act("confirm", 0, 3, "bitflip")}
+	}},
+	{Name: "oauth2-start", Build: func(s *sim.Sim) []*sim.Action {
+		return []*sim.Action{act("oauth_start", 0, -9, "", "provider", "alpha", "rm", "true")}
+	}},
 	{Name: "oauth2-callback", Build: func(s *sim.Sim) []*sim.Action {
 		return []*sim.Action{act("oauth_start", 0, -9, "", "provider", "alpha", "rm", "true"), withCls2(act("oauth_cb", 0, 0, "own", "provider", "alpha"), "validcode")}
 	}},
@@ -70,24 +82,42 @@ var c18Scripts = []c18script{
 	{Name: "protected-route-bare-logged-in", Build: func(s *sim.Sim) []*sim.Action {
 		return []*sim.Action{act("login", 0, 0, "ok"), act("visit", 0, -9, "", "route", "/protected/bare")}
 	}},
-	{Name: "protected-route-anonymous", Build: func(s *sim.Sim) []*sim.Action { return []*sim.Action{act("visit", 0, -9, "", "route", "/protected/plain")} }},
-	{Name: "totp-validate-ok", Build: func(s *sim.Sim) []*sim.Action { return []*sim.Action{act("login", 0, 1, "ok"), act("totp_validate", 0, -9, "ok")} }},
-	{Name: "totp-validate-wrong", Build: func(s *sim.Sim) []*sim.Action { return []*sim.Action{act("login", 0, 1, "ok"), act("totp_validate", 0, -9, "wrong")} }},
-	{Name: "totp-validate-recovery", Build: func(s *sim.Sim) []*sim.Action { return []*sim.Action{act("login", 0, 1, "ok"), act("totp_validate", 0, -9, "recovery")} }},
-	{Name: "sms-validate-ok", Build: func(s *sim.Sim) []*sim.Action { return []*sim.Action{act("login", 0, 2, "ok"), act("sms_validate", 0, -9, "ok")} }},
-	{Name: "sms-validate-wrong", Build: func(s *sim.Sim) []*sim.Action { return []*sim.Action{act("login", 0, 2, "ok"), act("sms_validate", 0, -9, "wrong")} }},
+	{Name: "protected-route-anonymous", Build: func(s *sim.Sim) []*sim.Action {
+		return []*sim.Action{act("visit", 0, -9, "", "route", "/protected/plain")}
+	}},
+	{Name: "totp-validate-ok", Build: func(s *sim.Sim) []*sim.Action {
+		return []*sim.Action{act("login", 0, 1, "ok"), act("totp_validate", 0, -9, "ok")}
+	}},
+	{Name: "totp-validate-wrong", Build: func(s *sim.Sim) []*sim.Action {
+		return []*sim.Action{act("login", 0, 1, "ok"), act("totp_validate", 0, -9, "wrong")}
+	}},
+	{Name: "totp-validate-recovery", Build: func(s *sim.Sim) []*sim.Action {
+		return []*sim.Action{act("login", 0, 1, "ok"), act("totp_validate", 0, -9, "recovery")}
+	}},
+	{Name: "sms-validate-ok", Build: func(s *sim.Sim) []*sim.Action {
+		return []*sim.Action{act("login", 0, 2, "ok"), act("sms_validate", 0, -9, "ok")}
+	}},
+	{Name: "sms-validate-wrong", Build: func(s *sim.Sim) []*sim.Action {
+		return []*sim.Action{act("login", 0, 2, "ok"), act("sms_validate", 0, -9, "wrong")}
+	}},
 	{Name: "sms-validate-resend", Build: func(s *sim.Sim) []*sim.Action {
 		return []*sim.Action{act("login", 0, 2, "ok"), act("advance", 0, -9, "", "d", "11s"), act("sms_validate", 0, -9, "empty")}
 	}},
-	{Name: "sms-validate-recovery", Build: func(s *sim.Sim) []*sim.Action { return []*sim.Action{act("login", 0, 2, "ok"), act("sms_validate", 0, -9, "recovery")} }},
-	{Name: "totp-setup", Build: func(s *sim.Sim) []*sim.Action { return []*sim.Action{act("login", 0, 0, "ok"), act("totp_setup", 0, -9, "")} }},
+	{Name: "sms-validate-recovery", Build: func(s *sim.Sim) []*sim.Action {
+		return []*sim.Action{act("login", 0, 2, "ok"), act("sms_validate", 0, -9, "recovery")}
+	}},
+	{Name: "totp-setup", Build: func(s *sim.Sim) []*sim.Action {
+		return []*sim.Action{act("login", 0, 0, "ok"), act("totp_setup", 0, -9, "")}
+	}},
 	{Name: "totp-confirm", Slow: true, Build: func(s *sim.Sim) []*sim.Action {
 		return []*sim.Action{act("login", 0, 0, "ok"), act("totp_setup", 0, -9, ""), act("totp_confirm", 0, -9, "ok")}
 	}},
 	{Name: "totp-remove", Build: func(s *sim.Sim) []*sim.Action {
 		return []*sim.Action{act("login", 0, 1, "ok"), act("totp_validate", 0, -9, "recovery"), act("totp_remove", 0, -9, "ok")}
 	}},
-	{Name: "sms-setup", Build: func(s *sim.Sim) []*sim.Action { return []*sim.Action{act("login", 0, 0, "ok"), act("sms_setup", 0, -9, "own")} }},
+	{Name: "sms-setup", Build: func(s *sim.Sim) []*sim.Action {
+		return []*sim.Action{act("login", 0, 0, "ok"), act("sms_setup", 0, -9, "own")}
+	}},
 	{Name: "sms-confirm", Slow: true, Build: func(s *sim.Sim) []*sim.Action {
 		return []*sim.Action{act("login", 0, 0, "ok"), act("sms_setup", 0, -9, "own"), act("sms_confirm", 0, -9, "ok")}
 	}},
@@ -97,7 +127,9 @@ var c18Scripts = []c18script{
 	{Name: "recovery-regen", Slow: true, Build: func(s *sim.Sim) []*sim.Action {
 		return []*sim.Action{act("login", 0, 1, "ok"), act("totp_validate", 0, -9, "ok"), act("regen", 0, -9, "")}
 	}},
-	{Name: "2fa-email-verify-start", Email: true, Build: func(s *sim.Sim) []*sim.Action { return []*sim.Action{act("login", 0, 0, "ok"), act("ev_start", 0, -9, "", "kind", "totp")} }},
+	{Name: "2fa-email-verify-start", Email: true, Build: func(s *sim.Sim) []*sim.Action {
+		return []*sim.Action{act("login", 0, 0, "ok"), act("ev_start", 0, -9, "", "kind", "totp")}
+	}},
 	{Name: "2fa-email-verify-end", Email: true, Build: func(s *sim.Sim) []*sim.Action {
 		return []*sim.Action{act("login", 0, 0, "ok"), act("ev_start", 0, -9, "", "kind", "totp"), act("ev_end", 0, -9, "current", "kind", "totp")}
 	}},
@@ -105,7 +137,9 @@ var c18Scripts = []c18script{
 		return []*sim.Action{act("login", 0, 0, "ok", "rm", "true"), withCls2(act("admin_updatepw", 0, 0, ""), "fresh")}
 	}},
 	{Name: "programmatic-lock", Build: func(s *sim.Sim) []*sim.Action { return []*sim.Action{act("admin_lock", 0, 0, "")} }},
-	{Name: "programmatic-unlock", Build: func(s *sim.Sim) []*sim.Action { return []*sim.Action{act("admin_lock", 0, 0, ""), act("admin_unlock", 0, 0, "")} }},
+	{Name: "programmatic-unlock", Build: func(s *sim.Sim) []*sim.Action {
+		return []*sim.Action{act("admin_lock", 0, 0, ""), act("admin_unlock", 0, 0, "")}
+	}},
 	{Name: "programmatic-start-confirmation", Build: func(s *sim.Sim) []*sim.Action { return []*sim.Action{act("admin_startconfirm", 0, 0, "")} }},
 }
 
@@ -343,7 +377,7 @@ func c18Unit(c *RunCtx, unit int) {
 func init() {
 	register(&Check{
 		ID: "C18", Level: "fault_enumeration", Exhaustive: true,
-		Rule: "49 flow scripts (every route of every module in its main states, the remember / access / lock / confirm middlewares, the programmatic UpdatePassword, Lock, Unlock, StartConfirmation) x {silent default error handler, handler that writes a 500} (x form/JSON in the thorough tier). Each script is first run fault-free to record the ordered backend calls of its target request (storer methods, hasher, view renderer, SMS sender); then for EVERY call index and every applicable error kind (generic; not-found on loads/saves; token-not-found; user-found) the world is rebuilt, the prelude replayed and that one fault injected. Oracles: no panic; a failed write inside a route handler or programmatic call ends in an error outcome (handler error / 5xx / returned error) and never shows success markers; SMS/renderer/hasher failures end in an error outcome; no session for the target account when the faulted call was the consumption of a one-time credential; afterwards every credential the ledger holds as spent or dead is presented again and judged by the C01/C05/C12 monitors. exhaustive=true refers to the call-index x error-kind grid of the listed scripts. distinct_nontrivial = distinct (script#call:op, error kind, handler kind, mode, where, outcome) signatures.",
+		Rule:  "49 flow scripts (every route of every module in its main states, the remember / access / lock / confirm middlewares, the programmatic UpdatePassword, Lock, Unlock, StartConfirmation) x {silent default error handler, handler that writes a 500} (x form/JSON in the thorough tier). Each script is first run fault-free to record the ordered backend calls of its target request (storer methods, hasher, view renderer, SMS sender); then for EVERY call index and every applicable error kind (generic; not-found on loads/saves; token-not-found; user-found) the world is rebuilt, the prelude replayed and that one fault injected. Oracles: no panic; a failed write inside a route handler or programmatic call ends in an error outcome (handler error / 5xx / returned error) and never shows success markers; SMS/renderer/hasher failures end in an error outcome; no session for the target account when the faulted call was the consumption of a one-time credential; afterwards every credential the ledger holds as spent or dead is presented again and judged by the C01/C05/C12 monitors. exhaustive=true refers to the call-index x error-kind grid of the listed scripts. distinct_nontrivial = distinct (script#call:op, error kind, handler kind, mode, where, outcome) signatures.",
 		Units: func(t string) int { return tierN(t, 2*len(c18Scripts), 4*len(c18Scripts)) },
 		Run:   c18Unit,
 		Floors: func(t string) map[string]int {
